@@ -253,6 +253,14 @@ def call_builtin(ex, st, name, args, kwargs, node):
         raise Unsupported("range with step")
     if name == "enumerate":
         return VEnum(_seq_of(ex, st, args[0]))
+    if name == "min" and len(args) == 1 and isinstance(args[0], VOpaque) and args[0].desc == "dictvalues" and not kwargs:
+        m = args[0].map
+        kk = z3.Int(fresh_name("argmin"))
+        q = z3.Int(fresh_name("mk"))
+        ex.oblige(st, f"L{line}.min_of_nonempty_dict", m.card > 0)          # otherwise ValueError
+        st.pc.append(m.dom[kk])
+        st.pc.append(z3.ForAll([q], z3.Implies(m.dom[q], m.val[kk] <= m.val[q]), patterns=[m.dom[q]]))
+        return VInt(m.val[kk])
     if name == "min" and len(args) == 1 and isinstance(args[0], VMap) and "key" in kwargs:
         m = args[0]
         ex.lib_used.add("min(dict, key=dict.get): SOME key of minimal value (CPython: the first one in insertion order)")
